@@ -430,8 +430,9 @@ example : Spec.v1RecsOf [84] true 4 [([[97]], 3), ([[98]], 2)]
     file name, exact length, and as `root` the BEP 52 merkle root (`Spec.root`) of the file, `None`
     for an empty file — in listed order (`_traverse`: names sorted per directory; the listing
     contains every file of the tree, each once).  No record is a padding record.
-    `hns` excludes the one tree for which this is FALSE: a directory whose only entry is a regular
-    file named like the torrent (see `namesake_directory_is_flattened`). -/
+    `hns` excludes the one tree for which this is FALSE for a pure v2 metafile: a directory whose
+    only entry is a regular file named like the torrent (see `namesake_directory_is_flattened`; the
+    hybrid creators need no such exclusion, see `extract_of_created_hybrid`). -/
 theorem extract_of_created_v2 (o : CreateOpts) (H H1 : Bytes → Bytes) (B hs j : Nat) (hB : 0 < B)
     (hpl : o.pieceLength = 2 ^ j * B)
     (enum : List (Bytes × Impl.FTree) → List (Bytes × Impl.FTree)) (henum : ∀ l, (enum l).Perm l)
@@ -448,8 +449,8 @@ theorem extract_of_created_v2 (o : CreateOpts) (H H1 : Bytes → Bytes) (B hs j 
       (∀ x ∈ Impl.ftreeFiles [] (Impl.traverse enum t), Spec.fileAt t x.1 = some x.2) ∧
       (∀ cs d, Spec.fileAt t cs = some d → (cs, d) ∈ Impl.ftreeFiles [] (Impl.traverse enum t)) ∧
       ((Impl.ftreeFiles [] (Impl.traverse enum t)).map (·.1)).Nodup :=
-  extract_v2cap o H H1 B hs j hB hpl enum henum t hwn hplain hname hns r b
-    (hc.elim Or.inl (fun h => Or.inr (Or.inl h)))
+  extract_v2cap o H H1 B hs j hB hpl enum henum t hwn hplain hname r b
+    (hc.elim Or.inl (fun h => Or.inr (Or.inl h))) (fun _ _ _ => hns)
 
 /-- met by the example torrent (blocks of 2 bytes, 2 blocks per piece, toy SHA-256), and by a
     single file `T` of 9 bytes: one record `T` -/
@@ -475,12 +476,15 @@ example : (∃ r b m, Impl.createV2Class ExW.opts Toy.toyH 2 1 List.reverse ExW.
 /-- hybrid (`TorrentFileHybrid`; `TorrentAssembler` with `meta_version="3"` when `H1` has 20-byte
     digests): a hybrid metafile carries `meta version` 2, so `Metadata.extract` reads its file tree:
     the same statement as for v2 — one record per regular file with the BEP 52 root, no padding
-    records (the padding entries of the v1 `files` list are not looked at). -/
+    records (the padding entries of the v1 `files` list are not looked at) — for EVERY tree, the
+    directory `name/{name: file}` included: a hybrid metafile of a directory carries a `files`
+    list, and since commit 777cf99 `extract` applies the single-file rule only when `info` has no
+    `files` key (before, that directory was flattened to `dest/name` as it still is for pure v2). -/
 theorem extract_of_created_hybrid (o : CreateOpts) (H H1 : Bytes → Bytes) (B hs j : Nat) (hB : 0 < B)
     (hpl : o.pieceLength = 2 ^ j * B)
     (enum : List (Bytes × Impl.FTree) → List (Bytes × Impl.FTree)) (henum : ∀ l, (enum l).Perm l)
     (t : Node) (hwn : Spec.WellNamed t) (hplain : PlainNamed t)
-    (hname : Spec.plainName o.name = true) (hns : ∀ d, t ≠ .dir [(o.name, .file d)])
+    (hname : Spec.plainName o.name = true)
     (r : BVal) (b : Bytes)
     (hc : Impl.createHybridClass o H H1 B hs enum t = some (r, b) ∨
           ((∀ x, (H1 x).length = 20) ∧ Impl.createAsm true o H H1 B hs enum t = some (r, b))) :
@@ -492,8 +496,11 @@ theorem extract_of_created_hybrid (o : CreateOpts) (H H1 : Bytes → Bytes) (B h
       (∀ x ∈ Impl.ftreeFiles [] (Impl.traverse enum t), Spec.fileAt t x.1 = some x.2) ∧
       (∀ cs d, Spec.fileAt t cs = some d → (cs, d) ∈ Impl.ftreeFiles [] (Impl.traverse enum t)) ∧
       ((Impl.ftreeFiles [] (Impl.traverse enum t)).map (·.1)).Nodup :=
-  extract_v2cap o H H1 B hs j hB hpl enum henum t hwn hplain hname hns r b
+  extract_v2cap o H H1 B hs j hB hpl enum henum t hwn hplain hname r b
     (hc.elim (fun h => Or.inr (Or.inr (Or.inl h))) (fun h => Or.inr (Or.inr (Or.inr h))))
+    (fun info hinfo hfalse d e => by
+      obtain ⟨d', e'⟩ := hybrid_files_key o H H1 B hs j hB hpl enum henum t hwn r b hc info hinfo hfalse
+      rw [e'] at e; cases e)
 
 /-- met by the example torrent, hybrid, toy hashes -/
 example : ∃ r b m, Impl.createHybridClass ExW.opts Toy.toyH Toy.toyH20 2 1 id ExW.tree = some (r, b) ∧
@@ -503,22 +510,24 @@ example : ∃ r b m, Impl.createHybridClass ExW.opts Toy.toyH Toy.toyH20 2 1 id 
     rfl id ExW.tree
   obtain ⟨m, h1, _, _, h2, h3, _⟩ := extract_of_created_hybrid ExW.opts Toy.toyH Toy.toyH20 2 1 1
     (by decide) rfl id (fun _ => .refl _) ExW.tree ExW.tree_wellNamed ExW.tree_plainNamed (by decide)
-    ExW.tree_not_namesake r b (Or.inl h)
+    r b (Or.inl h)
   refine ⟨r, b, m, h, h1, h2, ?_⟩
   rw [h3]
   intro f hf
   obtain ⟨x, _, rfl⟩ := List.mem_map.mp hf
   rfl
 
-/-- KF-G11-1 (the tree excluded by `hns`).  BEP 52 does not tell a single-file torrent from a
-    directory that holds one file named like the torrent: both have the file tree
-    `{name: {"": …}}`.  `Metadata.extract` takes every such tree for a single file
-    (`list(tree) == [name] and "" in tree[name]`), also when the metafile was made from a DIRECTORY
-    `T/` whose only entry is the regular file `T` (the creators write no `length` key then, which
-    would tell the two apart).  The record is `full = "T"`, so the rebuild places the file AT
-    `dest/T` instead of `dest/T/T`: the content is restored, the layout is not.  (Real tool:
-    `TorrentFileV2` / `TorrentFileHybrid` on `T/T`, `Assembler` → the destination holds the regular
-    file `T`; `Checker` on it still reports 100 %, `find_root` accepts a file of that name.)
+/-- KF-G11-1 (the tree excluded by `hns` for PURE v2 metafiles).  BEP 52 does not tell a single-file
+    torrent from a directory that holds one file named like the torrent: both have the file tree
+    `{name: {"": …}}`.  `Metadata.extract` takes such a tree for a single file
+    (`"files" not in info and list(tree) == [name] and "" in tree[name]`), also when a pure v2
+    metafile was made from a DIRECTORY `T/` whose only entry is the regular file `T` (the creators
+    write no `length` key then, which would tell the two apart).  The record is `full = "T"`, so
+    the rebuild places the file AT `dest/T` instead of `dest/T/T`: the content is restored, the
+    layout is not.  (Real tool: `TorrentFileV2` on `T/T`, `Assembler` → the destination holds the
+    regular file `T`; `Checker` on it still reports 100 %, `find_root` accepts a file of that name.)
+    For HYBRID metafiles this was repaired by commit 777cf99 (the `files` key decides), see
+    `hybrid_namesake_directory_kept`; a pure v2 metafile stays ambiguous by format.
     Shown on the decoded value the v2 creators write for `T/{T: 1 byte}`. -/
 theorem namesake_directory_is_flattened :
     ∃ m, Impl.extractMeta (.dict [(K.info, .dict [(K.fileTree, .dict [([84], .dict [([],
@@ -548,13 +557,15 @@ theorem namesake_directory_is_flattened :
     a file: `dest/<name>` shows exactly `RbMeta.pruneNode t`, the tree without the directories that
     hold no regular file (a rebuild creates directories only on the way to a file) — so the rebuilt
     destination itself rechecks at 100 %.
-    (`hns`: see `namesake_directory_is_flattened`.) -/
+    `hns` is only asked of the pure v2 creators (`RbMeta.PureV2`: `TorrentFileV2`, assembler "2"),
+    see `namesake_directory_is_flattened`; a hybrid metafile needs no exclusion (commit 777cf99). -/
 theorem rebuild_of_created_v2 (o : CreateOpts) (H1 H : Bytes → Bytes) (B hs j : Nat) (hB : 0 < B)
     (hpl : o.pieceLength = 2 ^ j * B)
     (enum : List (Bytes × Impl.FTree) → List (Bytes × Impl.FTree)) (henum : ∀ l, (enum l).Perm l)
     (t : Node) (hwn : Spec.WellNamed t) (hplain : PlainNamed t)
-    (hname : Spec.plainName o.name = true) (hns : ∀ d, t ≠ .dir [(o.name, .file d)])
+    (hname : Spec.plainName o.name = true)
     (r : BVal) (b : Bytes) (hc : Impl.WrittenV2Capable o H H1 B hs enum t r b)
+    (hns : PureV2 o H H1 B hs enum t r b → ∀ d, t ≠ .dir [(o.name, .file d)])
     (ds : Nat) (fs : FS) (filemap : FileMap) (dest : Path) (hd : CleanPath dest)
     (hr : DestReady fs dest) (hok : FilemapOK fs dest filemap)
     (hfresh : ∀ cs, fs (dest ++ o.name :: cs) = none)
@@ -578,9 +589,9 @@ theorem rebuild_of_created_v2 (o : CreateOpts) (H1 H : Bytes → Bytes) (B hs j 
         ∀ disk pname, ViewOf (applyOps fs ops) (dest ++ [o.name]) disk → pname ≠ o.name →
           ∃ vs, Impl.recheck H1 H B hs b ⟨.parent, pname⟩ disk
               = .ok (vs, treeBytes t, treeBytes t) ∧ ∀ v ∈ vs, v.1 = true) := by
-  obtain ⟨info, hw⟩ := written_of_v2capable o H H1 B hs j hB hpl enum henum t hwn r b hc
-  obtain ⟨ops, h1, h2, h3⟩ := rebuild_v2_core o H1 H B hs j hB enum henum t hwn hplain hname hns r b info hw
-    ds fs filemap dest hd hr hok hfresh hint hnc
+  obtain ⟨info, hw, hfk, hns'⟩ := written_of_v2capable o H H1 B hs j hB hpl enum henum t hwn r b hc
+  obtain ⟨ops, h1, h2, h3⟩ := rebuild_v2_core o H1 H B hs j hB enum henum t hwn hplain hname r b info hw
+    hfk (hns' hns) ds fs filemap dest hd hr hok hfresh hint hnc
   have hlen : (Impl.ftreeFiles [] (Impl.traverse enum t)).length = (Spec.allFiles [] t).length := by
     have := (ftreeFiles_traverse_perm enum henum [] t []).length_eq
     simpa using this
@@ -616,7 +627,7 @@ example : (∃ r b ops, Impl.createV2Class ExW.opts Toy.toyH 2 1 List.reverse Ex
   · obtain ⟨r, b, h⟩ := createV2Class_some ExW.opts Toy.toyH 2 1 List.reverse ExW.tree
     obtain ⟨ops, h1, h2, h3, h4⟩ := rebuild_of_created_v2 ExW.opts Toy.toyH20 Toy.toyH 2 1 1 (by decide) rfl
       List.reverse List.reverse_perm ExW.tree ExW.tree_wellNamed ExW.tree_plainNamed (by decide)
-      ExW.tree_not_namesake r b (Or.inl h) 4096 ExW.fs ExW.fmap [[100]] (by decide) (by decide)
+      r b (Or.inl h) (fun _ => ExW.tree_not_namesake) 4096 ExW.fs ExW.fmap [[100]] (by decide) (by decide)
       ExW.filemapOK ExW.fresh ExW.intact hnc
     have hv := h3 ⟨[[97]], [1, 2, 3], rfl⟩
     have hre := h4 (by decide) (by intro x; simp [Toy.toyH]) (by rw [ExW.tree_bytes]; decide)
@@ -627,9 +638,107 @@ example : (∃ r b ops, Impl.createV2Class ExW.opts Toy.toyH 2 1 List.reverse Ex
       rfl id ExW.tree
     obtain ⟨ops, h1, h2, _⟩ := rebuild_of_created_v2 ExW.opts Toy.toyH20 Toy.toyH 2 1 1 (by decide) rfl
       id (fun _ => .refl _) ExW.tree ExW.tree_wellNamed ExW.tree_plainNamed (by decide)
-      ExW.tree_not_namesake r b (Or.inr (Or.inr (Or.inl h))) 4096 ExW.fs ExW.fmap [[100]] (by decide)
-      (by decide) ExW.filemapOK ExW.fresh ExW.intact hnc
+      r b (Or.inr (Or.inr (Or.inl h))) (fun _ => ExW.tree_not_namesake) 4096 ExW.fs ExW.fmap [[100]]
+      (by decide) (by decide) ExW.filemapOK ExW.fresh ExW.intact hnc
     exact ⟨r, b, ops, h, h1, h2 [[97]] [1, 2, 3] rfl⟩
+
+/-- The repair of KF-G11-1 for hybrid metafiles (commit 777cf99), positively.  A HYBRID torrent of
+    the directory `T/` whose only entry is the regular file `T` (bytes `d`): `Metadata.extract`
+    yields the one record `T/T` (not `T`), and — an intact copy of the file being among the
+    candidates, fresh destination, no root collision among the candidates — the rebuild creates
+    the DIRECTORY `dest/T` and the file `dest/T/T` with exactly the bytes `d`; counter 1. -/
+theorem hybrid_namesake_directory_kept (o : CreateOpts) (H1 H : Bytes → Bytes) (B hs j : Nat)
+    (hB : 0 < B) (hpl : o.pieceLength = 2 ^ j * B)
+    (enum : List (Bytes × Impl.FTree) → List (Bytes × Impl.FTree)) (henum : ∀ l, (enum l).Perm l)
+    (d : Bytes) (hname : Spec.plainName o.name = true) (r : BVal) (b : Bytes)
+    (hc : Impl.createHybridClass o H H1 B hs enum (.dir [(o.name, .file d)]) = some (r, b) ∨
+          ((∀ x, (H1 x).length = 20) ∧
+            Impl.createAsm true o H H1 B hs enum (.dir [(o.name, .file d)]) = some (r, b)))
+    (ds : Nat) (fs : FS) (filemap : FileMap) (dest : Path) (hd : CleanPath dest)
+    (hr : DestReady fs dest) (hok : FilemapOK fs dest filemap)
+    (hfresh : ∀ cs, fs (dest ++ o.name :: cs) = none)
+    (hint : ∃ cands p, filemap.lookup o.name = some cands ∧ (p, d.length) ∈ cands ∧
+      fs.readFile? p = some d)
+    (hnc : d ≠ [] → ∀ cands c d', filemap.lookup o.name = some cands → c ∈ cands → c.2 = d.length →
+      fs.readFile? c.1 = some d' → Spec.root H B hs d' = Spec.root H B hs d → d' = d) :
+    (∃ m, (Impl.loads b).map Impl.extractMeta = some (.ok m) ∧
+      m.files = [Spec.fileRecOf o.name [o.name] d.length
+        (if d = [] then none else some (Spec.root H B hs d))]) ∧
+    ∃ ops, Impl.rebuildFromBytes H1 H B hs ds fs filemap dest b = .ok (ops, 1) ∧
+      applyOps fs ops (dest ++ [o.name]) = some .dir ∧
+      applyOps fs ops (dest ++ [o.name, o.name]) = some (.file d) := by
+  obtain ⟨hn1, _, _, hn4⟩ := plainName_parts o.name hname
+  have hwn : Spec.WellNamed (.dir [(o.name, .file d)]) := by
+    simp [Spec.WellNamed, Spec.WellNamedList, hn1, hn4]
+  have hplain : PlainNamed (.dir [(o.name, .file d)]) := by
+    simp [PlainNamed, PlainNamedList, hname]
+  have hfiles : ∀ cs d', Spec.fileAt (.dir [(o.name, .file d)]) cs = some d' → cs = [o.name] ∧ d' = d := by
+    intro cs d' h
+    cases cs with
+    | nil => simp [Spec.fileAt] at h
+    | cons c q =>
+      have h' : Spec.fileAtList [(o.name, Node.file d)] c q = some d' := h
+      simp only [Spec.fileAtList] at h'
+      by_cases e : o.name = c
+      · subst e
+        simp only [if_true] at h'
+        cases q with
+        | nil => simp only [Spec.fileAt, Option.some.injEq] at h'; exact ⟨rfl, h'.symm⟩
+        | cons c' q' => simp [Spec.fileAt] at h'
+      · simp [e] at h'
+  have hfn : fileNameOf o.name [o.name] = o.name := rfl
+  constructor
+  · obtain ⟨m, h1, _, _, _, h2, _⟩ := extract_of_created_hybrid o H H1 B hs j hB hpl enum henum _ hwn hplain
+      hname r b hc
+    exact ⟨m, h1, by rw [h2, traverse_namesake enum henum]; rfl⟩
+  · have hcap : Impl.WrittenV2Capable o H H1 B hs enum (.dir [(o.name, .file d)]) r b :=
+      hc.elim (fun h => Or.inr (Or.inr (Or.inl h))) (fun h => Or.inr (Or.inr (Or.inr h)))
+    obtain ⟨ops, h1, h2, h3, _⟩ := rebuild_of_created_v2 o H1 H B hs j hB hpl enum henum _ hwn hplain hname
+      r b hcap
+      (fun hp => absurd hp (not_pureV2_of_hybrid_dir o H H1 B hs j hB hpl enum henum _ hwn r b hc))
+      ds fs filemap dest hd hr hok hfresh
+      (by intro cs d' hf
+          obtain ⟨rfl, rfl⟩ := hfiles cs d' hf
+          rw [hfn]; exact hint)
+      (by intro cs d' hf hne
+          obtain ⟨rfl, rfl⟩ := hfiles cs d' hf
+          rw [hfn]; exact hnc hne)
+    refine ⟨ops, by rw [h1]; rfl, ?_, ?_⟩
+    · have := h3 ⟨[o.name], d, by simp [Spec.fileAt, Spec.fileAtList]⟩ []
+      simpa [RF.lookup, pruneNode, Spec.objOf] using this
+    · have := h2 [o.name] d (by simp [Spec.fileAt, Spec.fileAtList])
+      simpa using this
+
+/-- met by: the hybrid torrent `T` of the directory `{T: 1 2 3}`, the search directory of the
+    example world with the candidate map `{"T": [("/s/a", 3)]}` (`/s/a` = 1 2 3) -/
+example : ∃ r b ops, Impl.createHybridClass ExW.opts Toy.toyH Toy.toyH20 2 1 id
+      (.dir [([84], .file [1, 2, 3])]) = some (r, b) ∧
+    Impl.rebuildFromBytes Toy.toyH20 Toy.toyH 2 1 4096 ExW.fs [([84], [([[115], [97]], 3)])] [[100]] b
+      = .ok (ops, 1) ∧
+    applyOps ExW.fs ops [[100], [84]] = some .dir ∧
+    applyOps ExW.fs ops [[100], [84], [84]] = some (.file [1, 2, 3]) := by
+  obtain ⟨r, b, h⟩ := createHybridClass_some ExW.opts Toy.toyH Toy.toyH20 2 1 2 (by decide) (by decide)
+    rfl id (.dir [([84], .file [1, 2, 3])])
+  have hok : FilemapOK ExW.fs [[100]] [([84], [([[115], [97]], 3)])] := by
+    intro name cands hl c hc
+    obtain ⟨_, rfl⟩ := Ex.lookup_single hl
+    simp at hc; subst hc
+    exact ⟨by decide, [1, 2, 3], by decide, rfl⟩
+  obtain ⟨_, ops, h1, h2, h3⟩ := hybrid_namesake_directory_kept ExW.opts Toy.toyH20 Toy.toyH 2 1 1
+    (by decide) rfl id (fun _ => .refl _) [1, 2, 3] (by decide) r b (Or.inl h) 4096 ExW.fs
+    [([84], [([[115], [97]], 3)])] [[100]] (by decide) (by decide) hok ExW.fresh
+    ⟨[([[115], [97]], 3)], [[115], [97]], by decide, by decide, by decide⟩
+    (by intro _ cands c d' hl hc _ hread _
+        have : cands = [([[115], [97]], 3)] := by
+          have hh : List.lookup ExW.opts.name ([([84], [([[115], [97]], 3)])] : FileMap)
+              = some [([[115], [97]], 3)] := by
+            decide
+          exact Option.some.inj (hl.symm.trans hh)
+        subst this
+        simp at hc; subst hc
+        have hh : ExW.fs.readFile? [[115], [97]] = some [1, 2, 3] := by decide
+        rw [hh] at hread; injection hread with hread; exact hread.symm)
+  exact ⟨r, b, ops, h, h1, h2, h3⟩
 
 /-- v1 (`TorrentFile`, plain and piece-aligned, directory or single file; rebuilt through
     `_match_v1`).  Same setting as `rebuild_of_created_v2`; `H1` has 20-byte digests (the piece
